@@ -148,6 +148,9 @@ fn scen(_spec: RunSpec) -> ScenFut {
                 }
                 let is_del = op == "DELETE";
                 let was_del = last_was_delete.swap(is_del, std::sync::atomic::Ordering::SeqCst);
+                if is_del && std::env::var("VERIF_DIAG_PINS").is_ok() {
+                    sim::log(format!("DIAG compactor issues DELETE {} (previous compactor request was a DELETE: {was_del}); pinned now: {}", _path.rsplit('/').next().unwrap_or(""), pins.is_pinned(_path)));
+                }
                 if is_del && !was_del {
                     let mut known: Vec<String> = store::with_events(|e| e.iter().filter(|x| x.op == "PUT" && x.ok && x.path.ends_with(".parquet")).map(|x| x.path.clone()).collect());
                     known.extend(seed_paths.iter().cloned());
@@ -219,7 +222,7 @@ fn scen(_spec: RunSpec) -> ScenFut {
                         // what was persisted when it died?
                         let persisted = persisted_pending(&inner2).await;
                         *ra.lock().unwrap() = Some((sim::now_ns(), persisted));
-                        drop(h);
+                        h.abort();
                         tokio::time::sleep(Duration::from_secs(3)).await;
                         if tokio::time::Instant::now() >= deadline { return; }
                     }
